@@ -390,7 +390,11 @@ def evaluate(case):
     exc = None
     out = None
     try:
-        if on:
+        # the switch state while the function is being decorated is part of the history: only the state at CALL time counts
+        dec_on = on if case.get("decorate_switch", "same") == "same" else case["decorate_switch"] == "on"
+        if dec_on != on:
+            feats.append("decorated_" + ("on" if dec_on else "off") + "_called_" + case["switch"])
+        if dec_on:
             sw.on()
         else:
             sw.off()
@@ -399,6 +403,10 @@ def evaluate(case):
         except Exception as e:  # noqa: BLE001
             sig.update(kind="decorator_raised", exc=type(e).__name__)
             return Failure(f"building the decorator raised {type(e).__name__}: {e}", sig, {"case": case}), info
+        if on:
+            sw.on()
+        else:
+            sw.off()
         args = [built[n] for n, _ in params if call[n][0] == "pos"]
         kwargs = {n: built[n] for n, _ in params if call[n][0] == "kw"}
         try:
@@ -685,6 +693,7 @@ def cases(closed=frozenset()):
             "call": call,
             "ret": ret,
             "switch": draw(st.sampled_from(["on", "on", "on", "on", "off"])),
+            "decorate_switch": draw(st.sampled_from(["same", "same", "same", "on", "off", "off"])),
         }
         if excl[0]:
             case["excluded_by_construction"] = excl[0]
